@@ -72,6 +72,14 @@ Proof.
   exists (transp i1 i2). split; [apply transp_inj | exact N].
 Qed.
 
+(* ---------------- the array built from the list holds the list *)
+Lemma count_tests_length a : count_tests a = length a.
+Proof. induction a as [|x a IH]; cbn; [reflexivity|]. rewrite IH. lia. Qed.
+Lemma array_fill_all a : array_fill (length a) a = a.
+Proof. induction a as [|x a IH]; cbn; [reflexivity|]. rewrite IH. reflexivity. Qed.
+Lemma pointer_array_id a : pointer_array a = a.
+Proof. unfold pointer_array. rewrite count_tests_length. apply array_fill_all. Qed.
+
 (* ---------------- relinkTestsInOrder gives back the array's order *)
 Lemma skipn_cons_nth a : forall k t, nth_error a k = Some t -> skipn k a = t :: skipn (S k) a.
 Proof.
@@ -577,7 +585,8 @@ Proof.
   induction m as [|m IH]; intros reg P O; cbn [repeat_loop].
   - exists []. repeat split.
   - destruct (s_shuffle s) eqn:Sh.
-    + destruct (shuffle_ok (s_seed s) (s_rands s) reg) as [l [seeds [drawn [E [Pl _]]]]]. rewrite E.
+    + unfold shuffle_tests. rewrite pointer_array_id.
+      destruct (shuffle_ok (s_seed s) (s_rands s) reg) as [l [seeds [drawn [E [Pl _]]]]]. rewrite E.
       assert (P' : Permutation l ts) by (eapply Permutation_trans; eassumption).
       assert (O' : s_shuffle s = false -> map t_id l = expected_order) by (rewrite Sh; discriminate).
       assert (O2 : true = false -> map t_id l = expected_order) by discriminate.
@@ -608,11 +617,11 @@ Proof.
   pose proof (rep_ok_once r R t Ht) as B. rewrite count_body_occ, B. lia.
 Qed.
 
-Lemma start_order : exists reg1, (if s_rev s then reverse (registry_of ts) else Some (registry_of ts)) = Some reg1
+Lemma start_order : exists reg1, (if s_rev s then reverse_tests (registry_of ts) else Some (registry_of ts)) = Some reg1
   /\ Permutation reg1 ts /\ map t_id reg1 = expected_order.
 Proof.
   rewrite registry_of_rev. unfold expected_order. destruct (s_rev s).
-  - rewrite reverse_ok. rewrite rev_involutive. exists ts. repeat split; [apply Permutation_refl | apply valid_ids].
+  - unfold reverse_tests. rewrite pointer_array_id, reverse_ok. rewrite rev_involutive. exists ts. repeat split; [apply Permutation_refl | apply valid_ids].
   - exists (rev ts). repeat split; [apply Permutation_sym, Permutation_rev | rewrite map_rev, valid_ids; reflexivity].
 Qed.
 
@@ -680,6 +689,26 @@ Proof.
       - intros y Hy. destruct (Nat.eqb_spec i (t_id y)); [|reflexivity]. exfalso. apply Hi. subst i. apply in_map. exact Hy. }
     rewrite !Z. split; reflexivity.
 Qed.
+
+(* the tests are started in list order *)
+Definition started_ids (w : list event) : list nat :=
+  flat_map (fun e => match e with ETestStarted i => [i] | _ => [] end) w.
+Lemma started_app a b : started_ids (a ++ b) = started_ids a ++ started_ids b.
+Proof. unfold started_ids. apply flat_map_app. Qed.
+Lemma run_in_list_order gf nf ri l :
+  started_ids (fst (run_all_tests gf nf ri l)) = map t_id (filter (should_run gf nf) l).
+Proof.
+  unfold run_all_tests. rewrite run_loop_split. cbn [fst]. change (ETestsStarted :: ?x) with ([ETestsStarted] ++ x).
+  rewrite !started_app. cbn [started_ids flat_map app]. rewrite app_nil_r.
+  generalize true. induction l as [|t l IH]; intro gs; [reflexivity|]. cbn [events_of filter]. rewrite !started_app, IH.
+  replace (started_ids (if gs then [EGroupStarted (t_id t)] else [])) with (@nil nat) by (destruct gs; reflexivity).
+  replace (started_ids (if end_of_group t l then [EGroupEnded] else [])) with (@nil nat) by (destruct (end_of_group t l); reflexivity).
+  unfold test_events. destruct (should_run gf nf t); [|reflexivity]. destruct (m_ign ri t); reflexivity.
+Qed.
+
+(* the oracle's selection is the declarative one (no side condition) *)
+Lemma selected_declarative s t : selected s t = true <-> Accepted (s_gf s) (t_group t) /\ Accepted (s_nf s) (t_name t).
+Proof. unfold selected. rewrite andb_true_iff, !accepted_Accepted. reflexivity. Qed.
 
 (* shuffle: a permutation for every rand stream, every seed, every list; never indexes outside the array *)
 Lemma shuffle_perm {A} seed rs (a : list A) :
